@@ -206,6 +206,19 @@ class Heap:
         e = self.entries[name]
         return np.frombuffer(e["snap"], dtype=e["dtype"]).reshape(e["shape"]).copy()
 
+    def mutate(self, name, values):
+        """The caller overwrites its own array in place (buffer reuse). Returns False
+        when the storage is not writable."""
+        e = self.entries[name]
+        if e["storage"] in ("readonly", "memmap"):
+            return False
+        values = np.asarray(values, dtype=e["dtype"]).reshape(e["shape"])
+        e["arr"][...] = values
+        e["snap"] = np.array(values, copy=True).tobytes()
+        if e["buf"] is not None:
+            e["bufsnap"] = e["buf"].tobytes()
+        return True
+
     def twin_copy(self, name):
         """A private, writable copy with the same values *and the same memory layout*
         as the caller's array, so that a history-free twin performs bit-identical
